@@ -1,8 +1,10 @@
 (* C03 - WAL replay applies exactly the longest valid frame prefix.
-   Property theorems only.  Model: Model/Wal.v (hand-written, slot level, faithful to
-   src/storage/wal.rs as it is); what the property demands: Model/WalSpec.v; checksum:
-   Model/WalCrc.v.  `known_case ops d = 0` excludes the six recorded finding classes
-   (known_findings.d/C03.json); each class has a `..._refuted` witness below. *)
+   Property theorems only.  Model: Model/Wal.v (hand-written, slot level, transcribes
+   src/storage/wal.rs as of /repo commits 3b478c2, 68f3fa5, 8009d11); what the property demands:
+   Model/WalSpec.v; checksum: Model/WalCrc.v.
+   `known_case ops d = 0` excludes the two remaining finding classes: 6 (a zero-filled slot is
+   accepted as a frame) and 7 (a closed segment cut exactly at a frame boundary is undetectable);
+   each has a `..._refuted` witness below.  The writer theorem has no hypothesis at all. *)
 From Coq Require Import ZArith List Bool.
 From TV Require Import Lib.MachInt Model.WalCrc Model.Wal Model.WalSpec
   Proof.WalCrc Proof.WalRead Proof.Wal Proof.WalMain.
@@ -10,50 +12,63 @@ Import ListNotations.
 Open Scope Z_scope.
 
 (* a frame slot of zero bytes passes validate_checksum: CRC-64/ECMA-182 of zeros is 0 (this is
-   why the model's SZero slots are accepted by the reader) *)
+   why the model's SZero slots are accepted by the reader; finding class 6) *)
 Theorem zero_slot_valid : zero_slot_validates = true.
 Proof. exact zero_slot_valid_l. Qed.
 
-(* READER, any file contents (any list of slots per segment, damaged or not, produced by a
-   defective writer or not): recover applies exactly the frames the sequential reader accepts,
-   segment after segment, in order; each page ends with its last image, other pages stay zero *)
+(* READER, any file contents (any list of slots per segment): recover applies exactly the frames
+   the sequential reader accepts, segment after segment up to and including the first segment that
+   does not end cleanly, in order; each page ends with its last image, other pages stay zero *)
 Theorem recover_exact : forall files,
   Forall (fun f => frame_ok f = true) (seg_frames files) ->
   rec_ok (seg_frames files) (recover files) = true.
 Proof. exact recover_exact_l. Qed.
 
-(* ... and never panics (page numbers below u32::MAX, as the quantifier's small page space) *)
+(* ... and never panics (page numbers below u32::MAX, as in the quantifier's small page space) *)
 Theorem recover_never_panics : forall files,
   Forall (fun f => frame_ok f = true) (seg_frames files) -> recover files <> RecPanic.
 Proof. exact recover_no_panic_l. Qed.
 
-(* after Wal::open, read_page returns the last image of the page among the frames the reader
-   accepts in the latest segment - for any content of that file *)
-Theorem read_after_open_latest : forall lo closed fl k,
-  read_page (open_st lo closed fl) k = last_image (valid_frames fl) k RNone.
+(* after Wal::open of ANY segment files, read_page returns the last image of the page among
+   exactly the frames recovery applies (all segments, not only the latest) *)
+Theorem read_after_open_any : forall lo files k, files <> [] ->
+  read_page (open_st lo files) k = last_image (seg_frames files) k RNone.
 Proof. exact read_after_open. Qed.
 
-(* WRITER, every op sequence (write / batch with and without sync / set_sync_mode / sync /
-   rotate / truncate / drop+open) outside classes 1-3: the segment files hold exactly the frames
-   of the abstract log, in write order - nothing overwritten, nothing hidden, no other bytes *)
+(* what Wal::open does with a torn tail: it cuts it.  The current segment keeps exactly the slots
+   of its valid frames, and the writer's file cursor and logical offset are behind them *)
+Theorem open_cuts_torn_tail : forall lo files,
+  let s := open_st lo files in
+  valid_frames (s_file s) = valid_frames (last files []) /\
+  length (s_file s) = length (valid_frames (last files [])) /\
+  s_cur s = length (s_file s) /\ s_off s = length (s_file s) /\ s_pend s = [].
+Proof. exact open_cuts_tail_l. Qed.
+
+(* ... and recovery through the reopened handle reads the same frames as before the cut *)
+Theorem open_preserves_replay : forall lo files, files <> [] ->
+  seg_frames (files_of (open_st lo files)) = seg_frames files.
+Proof. exact seg_frames_open. Qed.
+
+(* WRITER, EVERY op sequence (write / batch with and without sync / set_sync_mode / sync /
+   rotate / truncate / drop+open): the segment files hold exactly the frames of the abstract
+   log, in write order - nothing overwritten, nothing hidden, no bytes that were never written *)
 Theorem writer_files_exact : forall ops,
-  known_ops ops = 0 -> final_files (run ops) = map (map SFrame) (log_of ops).
+  final_files (run ops) = map (map SFrame) (log_of ops).
 Proof. exact writer_files_l. Qed.
 
-(* RECOVERY after any such sequence and any cut / byte flip / zero fill of one segment file
-   outside classes 4, 6: exactly the longest valid prefix is applied (all files and per file id) *)
+(* RECOVERY after any op sequence and any cut / byte flip / zero fill of one segment file outside
+   classes 6, 7: exactly the longest valid prefix is applied (all files and per file id) *)
 Theorem recover_longest_valid_prefix : forall ops d,
-  ops_ok ops = true -> known_ops ops = 0 -> dmg_class (log_of ops) d = 0 ->
+  ops_ok ops = true -> dmg_class (log_of ops) d = 0 ->
   let vp := valid_prefix (log_of ops) d in
-  let files := dmg_files d (final_files (run ops)) in
+  let files := files_of (reopened (run ops) d) in
   rec_ok vp (recover files) = true /\
   forall fid, rec_ok (by_fid fid vp) (recover_for_file files fid) = true.
 Proof. exact recover_prefix_l. Qed.
 
-(* read_page after the fault + Wal::open returns the last image in the valid prefix (also outside class 5) *)
+(* read_page after the fault + Wal::open returns the last image in the valid prefix *)
 Theorem reads_after_reopen : forall ops d,
-  known_ops ops = 0 -> dmg_class (log_of ops) d = 0 ->
-  read_class (log_of ops) (valid_prefix (log_of ops) d) = 0 ->
+  dmg_class (log_of ops) d = 0 ->
   map (read_page (reopened (run ops) d)) read_keys
   = expect_reads (valid_prefix (log_of ops) d) read_keys.
 Proof. exact reads_prefix_l. Qed.
@@ -63,31 +78,34 @@ Theorem c03_outside_known_classes : forall ops d,
   ops_ok ops = true -> known_case ops d = 0 -> spec_check ops d (model_obs ops d) = true.
 Proof. exact c03_main_l. Qed.
 
-(* the faithful model violates the property in each recorded class (witnesses are replayed on
-   the real implementation by every run: known_findings.d/C03.json) *)
-Theorem reopen_overwrite_refuted : refutes 1 [w 0 1; w 1 2; OReopen; w 2 3] DNone.
-Proof. exact class1_refuted_l. Qed.
-Theorem truncate_hole_refuted : refutes 2 [w 1 1; w 2 2; OTruncate; w 1 3] DNone.
-Proof. exact class2_refuted_l. Qed.
-Theorem truncate_buffered_refuted : refutes 3 [OSetSync false; w 1 1; OTruncate] DNone.
-Proof. exact class3_refuted_l. Qed.
-Theorem damaged_closed_segment_refuted : refutes 4 [w 0 1; ORotate; w 1 2] (DFlip 0 40 1).
-Proof. exact class4_refuted_l. Qed.
-Theorem reopen_hides_older_segments_refuted : refutes 5 [w 0 1; ORotate; w 1 2] DNone.
-Proof. exact class5_refuted_l. Qed.
+(* the faithful model violates the property in the two remaining classes (both witnesses are
+   replayed on the real implementation by every run: known_findings.d/C03.json) *)
 Theorem zeroed_slot_replayed_refuted : refutes 6 [w 0 1; w 1 2; w 2 5] (DZero 0 16416 16416 1 1).
 Proof. exact class6_refuted_l. Qed.
+Theorem boundary_cut_of_closed_segment_refuted : refutes 7 [w 0 1; w 1 2; ORotate; w 2 3] (DCut 0 16416).
+Proof. exact class7_refuted_l. Qed.
 
-(* non-vacuity: a history with unsynced batches, a rotation, a truncate, reopen-then-append on
-   an empty segment and a fault in the middle of the last segment lies outside all classes;
-   its valid prefix is non-trivial and the model's observations are as the property demands *)
+(* the witnesses of the five classes repaired in /repo (3b478c2 truncate flush+rewind, 68f3fa5
+   open position + index of all segments, 8009d11 recover stops at damage) now satisfy the rule *)
+Theorem former_classes_repaired :
+  repaired [w 0 1; w 1 2; OReopen; w 2 3] DNone /\
+  repaired [w 1 1; w 2 2; OTruncate; w 1 3] DNone /\
+  repaired [OSetSync false; w 1 1; OTruncate] DNone /\
+  repaired [w 0 1; ORotate; w 1 2] (DFlip 0 40 1) /\
+  repaired [w 0 1; ORotate; w 1 2] DNone.
+Proof. exact former_classes_repaired_l. Qed.
+
+(* non-vacuity: a history with reopen-then-append on a non-empty segment, append after truncate,
+   unsynced batches, rotations and a torn frame in the middle of the last segment lies outside
+   both classes; its valid prefix is non-trivial and the model's observations are as demanded *)
 Example c03_witness :
-  let ops := [w 0 1; ORotate; w 1 2; OTruncate; OReopen; OSetSync false;
-              OBatch [Fr 0 0 3 7; Fr 1 2 4 9] true; OSync; w 0 8; OWrite (Fr 1 1 0 6)] in
-  let d := DFlip 0 (2 * 16416 + 100) 128 in
+  let ops := [w 0 1; ORotate; w 1 2; OReopen; w 2 4; OTruncate; w 0 5; OReopen; OSetSync false;
+              OBatch [Fr 0 0 3 7; Fr 1 2 4 9] true; OSync; ORotate; w 0 8; OWrite (Fr 1 1 0 6)] in
+  let d := DCut 1 (16416 + 100) in
   ops_ok ops = true /\ known_case ops d = 0 /\
-  valid_prefix (log_of ops) d = [Fr 0 0 3 7; Fr 1 2 4 9] /\
-  recover (dmg_files d (final_files (run ops))) = RecOk 2 [7; 0; 9; 0] /\
+  log_of ops = [[Fr 0 0 3 5; Fr 0 0 3 7; Fr 1 2 4 9]; [Fr 0 0 3 8; Fr 1 1 0 6]] /\
+  valid_prefix (log_of ops) d = [Fr 0 0 3 5; Fr 0 0 3 7; Fr 1 2 4 9; Fr 0 0 3 8] /\
+  recover (files_of (reopened (run ops) d)) = RecOk 4 [8; 0; 9; 0] /\
   spec_check ops d (model_obs ops d) = true.
 Proof. vm_compute. repeat split. Qed.
 
@@ -97,41 +115,48 @@ Check recover_exact : forall files,
   rec_ok (seg_frames files) (recover files) = true.
 Check recover_never_panics : forall files,
   Forall (fun f => frame_ok f = true) (seg_frames files) -> recover files <> RecPanic.
-Check read_after_open_latest : forall lo closed fl k,
-  read_page (open_st lo closed fl) k = last_image (valid_frames fl) k RNone.
+Check read_after_open_any : forall lo files k, files <> [] ->
+  read_page (open_st lo files) k = last_image (seg_frames files) k RNone.
+Check open_cuts_torn_tail : forall lo files,
+  let s := open_st lo files in
+  valid_frames (s_file s) = valid_frames (last files []) /\
+  length (s_file s) = length (valid_frames (last files [])) /\
+  s_cur s = length (s_file s) /\ s_off s = length (s_file s) /\ s_pend s = [].
+Check open_preserves_replay : forall lo files, files <> [] ->
+  seg_frames (files_of (open_st lo files)) = seg_frames files.
 Check writer_files_exact : forall ops,
-  known_ops ops = 0 -> final_files (run ops) = map (map SFrame) (log_of ops).
+  final_files (run ops) = map (map SFrame) (log_of ops).
 Check recover_longest_valid_prefix : forall ops d,
-  ops_ok ops = true -> known_ops ops = 0 -> dmg_class (log_of ops) d = 0 ->
+  ops_ok ops = true -> dmg_class (log_of ops) d = 0 ->
   let vp := valid_prefix (log_of ops) d in
-  let files := dmg_files d (final_files (run ops)) in
+  let files := files_of (reopened (run ops) d) in
   rec_ok vp (recover files) = true /\
   forall fid, rec_ok (by_fid fid vp) (recover_for_file files fid) = true.
 Check reads_after_reopen : forall ops d,
-  known_ops ops = 0 -> dmg_class (log_of ops) d = 0 ->
-  read_class (log_of ops) (valid_prefix (log_of ops) d) = 0 ->
+  dmg_class (log_of ops) d = 0 ->
   map (read_page (reopened (run ops) d)) read_keys
   = expect_reads (valid_prefix (log_of ops) d) read_keys.
 Check c03_outside_known_classes : forall ops d,
   ops_ok ops = true -> known_case ops d = 0 -> spec_check ops d (model_obs ops d) = true.
-Check reopen_overwrite_refuted : refutes 1 [w 0 1; w 1 2; OReopen; w 2 3] DNone.
-Check truncate_hole_refuted : refutes 2 [w 1 1; w 2 2; OTruncate; w 1 3] DNone.
-Check truncate_buffered_refuted : refutes 3 [OSetSync false; w 1 1; OTruncate] DNone.
-Check damaged_closed_segment_refuted : refutes 4 [w 0 1; ORotate; w 1 2] (DFlip 0 40 1).
-Check reopen_hides_older_segments_refuted : refutes 5 [w 0 1; ORotate; w 1 2] DNone.
 Check zeroed_slot_replayed_refuted : refutes 6 [w 0 1; w 1 2; w 2 5] (DZero 0 16416 16416 1 1).
+Check boundary_cut_of_closed_segment_refuted : refutes 7 [w 0 1; w 1 2; ORotate; w 2 3] (DCut 0 16416).
+Check former_classes_repaired :
+  repaired [w 0 1; w 1 2; OReopen; w 2 3] DNone /\
+  repaired [w 1 1; w 2 2; OTruncate; w 1 3] DNone /\
+  repaired [OSetSync false; w 1 1; OTruncate] DNone /\
+  repaired [w 0 1; ORotate; w 1 2] (DFlip 0 40 1) /\
+  repaired [w 0 1; ORotate; w 1 2] DNone.
 
 Print Assumptions zero_slot_valid.
 Print Assumptions recover_exact.
 Print Assumptions recover_never_panics.
-Print Assumptions read_after_open_latest.
+Print Assumptions read_after_open_any.
+Print Assumptions open_cuts_torn_tail.
+Print Assumptions open_preserves_replay.
 Print Assumptions writer_files_exact.
 Print Assumptions recover_longest_valid_prefix.
 Print Assumptions reads_after_reopen.
 Print Assumptions c03_outside_known_classes.
-Print Assumptions reopen_overwrite_refuted.
-Print Assumptions truncate_hole_refuted.
-Print Assumptions truncate_buffered_refuted.
-Print Assumptions damaged_closed_segment_refuted.
-Print Assumptions reopen_hides_older_segments_refuted.
 Print Assumptions zeroed_slot_replayed_refuted.
+Print Assumptions boundary_cut_of_closed_segment_refuted.
+Print Assumptions former_classes_repaired.
